@@ -316,12 +316,12 @@ class RunUnit(Unit):
         ('error/clean announcement swapped', f'{FILTER}::Filter.run', 'if prop_exit & (2 if is_exc else 1):', 'if prop_exit & (1 if is_exc else 2):', 'C08.announce'),
         ('propagated error not eaten', f'{FILTER}::Filter.run', 'except Filter.PropagateError:  # it has done its job, now eat it\n                    pass', 'except ZeroDivisionError:\n                    pass', 'C08.outcome'),
         ('stop event not set at the end', f'{FILTER}::Filter.run', '                filter.emitter.emit_stop()\n            stop_evt.set()', '                filter.emitter.emit_stop()\n            pass', 'C08.stop_evt'),
-        ('exit() does not set the stop event', f'{FILTER}::Filter.exit', 'self.stop_evt.set()', 'pass', 'C08.'),
         ('fini does not destroy the MQ', f'{FILTER}::Filter.fini', 'self.mq.destroy()', 'pass', 'C08.torn_down'),
     )
 
     def __init__(self, props, name=None):
         self.props = props
+        self.mutants = tuple(m for m in type(self).mutants if any(m[4].startswith(p_) for p_ in props))      # mutants of the clauses this instance keeps
         if name:
             self.name = name
         if 'C18' in props and 'C08' not in props:
@@ -498,11 +498,13 @@ class LoopOnceUnit(Unit):
     required_covers = ('iteration completed', 'deadline reached')
     mutants = (
         ('deadline comparison inverted', f'{FILTER}::Filter.loop_once', '>= exit_after_t:', '< exit_after_t:', 'C08.exit_after'),
+        ('exit() does not set the stop event', f'{FILTER}::Filter.exit', 'self.stop_evt.set()', 'pass', 'C08.exit_once'),
         ('retry sends freshly processed frames', f'{FILTER}::Filter.loop_once', 'while not self.mq.send(frames, min(POLL_TIMEOUT_MS, outputs_timeout)):', 'while not self.mq.send(self.process_frames(frames), min(POLL_TIMEOUT_MS, outputs_timeout)):', 'C01.id_carry'),
     )
 
     def __init__(self, props=('C08',)):
         self.props = props
+        self.mutants = tuple(m for m in type(self).mutants if any(m[4].startswith(p_) for p_ in props))      # mutants of the clauses this instance keeps
 
     def shapes(self, tier):
         return [(d, st, ot) for d in ('none', 'set') for st in ('inf', 'int') for ot in ('inf', 'int')]
@@ -617,6 +619,7 @@ class InitUnit(Unit):
 
     def __init__(self, props=('C08',)):
         self.props = props
+        self.mutants = tuple(m for m in type(self).mutants if any(m[4].startswith(p_) for p_ in props))      # mutants of the clauses this instance keeps
 
     def shapes(self, tier):
         return [(ea, em, obey) for ea in ('none', 'seconds', 'interval', 'at') for em in (True, False) for obey in ('all', 'clean', 'error', 'none')]
